@@ -31,6 +31,20 @@ NEEDS = {
  'C19_4': "a malformed string whose offending token is on the third line or later",
  'C20_3': "load_ga_file / from_value_array on one layout, then on another layout of the same signature and a different blade order",
  'C20_4': "transpose=True with a coefficient dtype other than float64 (int64 above 2**53, int32, float32)",
+ 'C09_3': "a signature with a negative direction and a blade (or a partial product met while walking the basis vectors) with negative B*~B",
+ 'C09_4': "meet of blades with grade(A) + grade(B) >= n whose spans do not fill the space (shared factors beyond general position)",
+ 'C12_3': "a non-zero rotation(+translation) bivector whose coefficients cancel exactly, e.g. theta*(e23 - e12)",
+ 'C12_4': "a pseudoscalar component on the input of a dual / a meet of complementary-grade objects",
+ 'C13_3': "facing planes (parallel, opposite orientation, different offsets): the special-case branch of rotor_between_objects_root",
+ 'C13_4': "interpolation fraction 0 with a relative rotor on which ga_log is singular (equal poses, same attitude)",
+ 'C14_3': "a round whose radius / dual has been read BEFORE an operator is applied or from_center_radius is called (two cooperating sites)",
+ 'C14_4': "the origin written as the zero base vector (0*e1) as centre or as a defining point",
+ 'C15_3': "a Round with |rho|*|E| <= 1e-4 (e.g. unit direction, rho = 2**-14)",
+ 'C15_4': "any Round with an imaginary radius (the real part of the recovered radius)",
+ 'C16_3': "two layouts with the same signature and ids but another blade order (or other names) used in one process by the jitted series",
+ 'C16_4': "an argument whose square has a zero scalar part without being zero (e1 + e23 in Cl(3))",
+ 'C18_3': "a BladeMap in which a listed blade carries a minus sign, applied from the signed side",
+ 'C18_4': "frames whose inner products differ by more than eps but less than 1e-5 relative",
  'C15_1': "a DualFlat in conformalised Cl(4) (pseudoscalar squares to +1)",
  'C15_2': "Tangent(E, p) with grade(E) >= 1 and a location with a component inside the direction",
  'C16_1': "mixed signature and a non-blade argument whose reverse-norm nearly cancels with coefficients above ~3",
